@@ -795,7 +795,7 @@ func (p *pp) badVerb(verb rune) {
 	_, _ = p.WriteSingleByte('(')
 	switch {
 	case p.arg != nil:
-		_, _ = p.WriteString(p.arg.String())
+		_, _ = p.WriteString(p.arg.TypeName())
 		_, _ = p.WriteSingleByte('=')
 		p.printArg(p.arg, 'v')
 	default:
